@@ -465,6 +465,108 @@ def check_reload(acc):
     acc.sample({"part": "reload", "versions": [v[0] for v in RELOAD_VERSIONS]}, cap=1)
 
 
+# ---------------------------------------------------------------------------------------------
+# (e) conditions that are not plain functions: bound methods, callable objects, functools.partial objects
+
+KINDS_SRC = '''\
+import functools
+import icontract
+class MyErr(Exception): pass
+T = {"v": False}
+LOG = []
+def named(x):
+    LOG.append("named")
+    return T["v"]
+class Obj:
+    def meth(self, x):
+        LOG.append("meth")
+        return T["v"]
+    def __call__(self, x):
+        LOG.append("call")
+        return T["v"]
+    @staticmethod
+    def smeth(x):
+        LOG.append("smeth")
+        return T["v"]
+    @classmethod
+    def cmeth(cls, x):
+        LOG.append("cmeth")
+        return T["v"]
+def two(x, lim):
+    LOG.append("two")
+    return T["v"]
+def two_first(lim, x):
+    LOG.append("two_first")
+    return T["v"]
+CONDS = {
+    "named_function": named,
+    "bound_method": Obj().meth,
+    "callable_object": Obj(),
+    "static_method": Obj.smeth,
+    "class_method": Obj.cmeth,
+    "partial_keyword": functools.partial(two, lim=5),
+    "partial_positional": functools.partial(two_first, 5),
+    "partial_of_partial": functools.partial(functools.partial(two, lim=5)),
+    "partial_of_callable_object": functools.partial(Obj()),
+}
+def make(role, cond, err):
+    kw = {} if err is None else {"error": err}
+    if role == "require":
+        @icontract.require(cond, **kw)
+        def f(x):
+            return 1
+        return lambda: f(3)
+    if role == "ensure":
+        @icontract.ensure(cond, **kw)
+        def h(x):
+            return 1
+        return lambda: h(3)
+    raise ValueError(role)
+'''
+
+
+def check_condition_kinds(acc):
+    import icontract
+
+    ns = core.load_source(KINDS_SRC, "c07k")
+    try:
+        for name in sorted(ns["CONDS"]):
+            for role in ("require", "ensure"):
+                for err in (None, "MyErr"):
+                    for truth in (True, False):
+                        def go():
+                            ns["T"]["v"] = truth
+                            del ns["LOG"][:]
+                            call = ns["make"](role, ns["CONDS"][name], ns[err] if err else None)
+                            try:
+                                return ("ret", call())
+                            except BaseException as e:  # noqa
+                                return ("exc", e)
+                        try:
+                            out = core.fresh_ctx_run(go)
+                        except BaseException as e:  # noqa
+                            out = ("decorate_exc", e)
+                        evaluated = len(ns["LOG"])
+                        acc.case(("kind", name, role, err, truth), True, evaluated, out[0] if out[0] != "exc" else type(out[1]).__name__)
+                        want_cls = icontract.ViolationError if err is None else ns["MyErr"]
+                        bad = None
+                        if truth:
+                            if out != ("ret", 1) or evaluated != 1:
+                                bad = ("satisfied_contract_failed", "condition holds but the call gave {!r} ({} evaluations)".format(out, evaluated))
+                        else:
+                            if out[0] != "exc" or type(out[1]) is not want_cls:
+                                bad = ("violation_replaced_by_other_exception", "condition is falsy: expected {} got {!r}".format(want_cls.__name__, out[1]))
+                            elif "0x" in str(out[1]):
+                                bad = ("message_carries_an_address", "the message names the condition by an address: {!r}".format(str(out[1])))
+                        if bad:
+                            acc.violation(core.Violation(PROP, bad[0], {"part": "condition_kind", "kind": name, "role": role, "err": err or "default"},
+                                                         "condition given as {} on {}: {}".format(name, role, bad[1]),
+                                                         spec={"part": "kinds"}, script=KINDS_SRC))
+        acc.sample({"part": "condition_kinds", "kinds": sorted(ns["CONDS"])}, cap=1)
+    finally:
+        core.unload_source(ns)
+
+
 def work(args):
     import warnings
     warnings.simplefilter("ignore", SyntaxWarning)
@@ -479,6 +581,8 @@ def work(args):
             check_guards(acc)
         elif kind == "reload":
             check_reload(acc)
+        elif kind == "kinds":
+            check_condition_kinds(acc)
         else:
             for case in payload:
                 check_layout(case, acc, lay_by_name)
@@ -492,6 +596,7 @@ def run(tier, t0):
     items = [("a", indexed[i:i + c06.BATCH]) for i in range(0, len(indexed), c06.BATCH)]
     items.append(("guards", None))
     items.append(("reload", None))
+    items.append(("kinds", None))
     lc = layout_cases(tier)
     items += [("layout", lc[i:i + 40]) for i in range(0, len(lc), 40)]
     tot = core.merge(core.pmap(work, core.rotate(items)))
@@ -507,6 +612,9 @@ def run(tier, t0):
              "decorator x 6 neighbour configurations x 4 scopes x def/async def/class x 3 conditions; "
              "(d) every history of 2-3 out of 4 versions of a module loaded under ONE file name (the lambda starts on the same line in all of them), "
              "each violated after loading: the message carries the text of the version just loaded; "
+             "(e) conditions given as named function, bound/static/class method, callable object, functools.partial (keyword, positional, nested, of a "
+             "callable object) x require/ensure x default error/error class x holds/falsy: a falsy condition surfaces as the configured error "
+             "and the message carries no object address; "
              "non-trivial = every falsifying case".format(len(conds), len(GUARDS), len(lc)),
         assumptions=["conditions are written as lambdas inside a decorator (the supported form)"],
         bounds={"conditions": len(conds), "guards": len(GUARDS), "layout_cases": len(lc)},
@@ -522,6 +630,8 @@ def replay(path):
         check_guards(acc)
     elif data["part"] == "reload":
         check_reload(acc)
+    elif data["part"] == "kinds":
+        check_condition_kinds(acc)
     else:
         idx = {"require": 0, "ensure": 7, "invariant": 9}[data["role"]]
         check_batch_a([(idx, ("?", data["cond"], 0, data["cond"]))], acc, expr.valuations())
